@@ -43,11 +43,14 @@ namespace sqf
             sqf::runtime::type type() const override { return data_type(); }
             virtual std::size_t hash() const override
             {
+                // Equal maps may list their entries in different orders (insertion history, bucket count).
+                // Entries are hashed on their own and combined with a commutative operation, so that equal maps hash equal.
                 size_t hash = 0x9e3779b9;
                 for (auto& it : m_map)
                 {
-                    hash ^= std::hash<sqf::runtime::value>()(it.first) + 0x9e3779b9 + (hash << 6) + (hash >> 2);
-                    hash ^= std::hash<sqf::runtime::value>()(it.second) + 0x9e3779b9 + (hash << 6) + (hash >> 2);
+                    size_t entry = std::hash<sqf::runtime::value>()(it.first);
+                    entry ^= std::hash<sqf::runtime::value>()(it.second) + 0x9e3779b9 + (entry << 6) + (entry >> 2);
+                    hash += entry;
                 }
                 return hash;
             }
